@@ -192,7 +192,16 @@ class DocsLeg(object):
                 bad = cmp(db2.directives, "db.directives (reopened)")
                 if bad:
                     return bad
+                # ... and are still all there after features were added later
+                from gffutils.feature import feature_from_line
+
+                db2.update([feature_from_line("chr1\tsrc\tgene\t900\t950\t.\t+\t.\tID=later")], make_backup=False)
                 db2.conn.close()
+                db3 = gffutils.FeatureDB(dbfn)
+                bad = cmp(db3.directives, "db.directives (reopened after update())")
+                if bad:
+                    return bad
+                db3.conn.close()
         return None
 
 
